@@ -72,7 +72,7 @@ def opt_combos(names, step_name=None):
     for combo in itertools.product(*[(None, 'int')] * len(names)):
         d = dict(zip(names, combo))
         if step_name and d[step_name] == 'int':
-            for sg in ('pos', 'neg'):
+            for sg in ('pos', 'neg', 'zero'):
                 e = dict(d)
                 e[step_name] = sg
                 out.append(e)
@@ -88,6 +88,8 @@ def cname(d):
 def mk_opt(S, name, kind):
     if kind is None:
         return None
+    if kind == 'zero':
+        return 0                  # (a slice step of 0: ValueError in every mode)
     v = S.int(name)
     if S.values is None:
         if kind == 'pos':
@@ -98,6 +100,8 @@ def mk_opt(S, name, kind):
 
 
 def rv(vals, name, kind):
+    if kind == 'zero':
+        return 0
     return None if kind is None else vals[name]
 
 
